@@ -36,6 +36,14 @@ type c10Input struct {
 	Grouping string       `json:"grouping"` // "", by(a), by(a,c), by(ab), without(a), without(c)
 	Range    bool         `json:"range"`    // 3-step range query instead of instant
 	Bound    int          `json:"bound"`    // MAPITER deviation bound
+	// JSON (used instead of Sets when non-empty): indexes into c10JSONLines; the labels of the series come out of
+	// `| json`, i.e. as numbers, booleans and strings rather than as plain string attributes.
+	JSON []int `json:"json,omitempty"`
+}
+
+// c10JSONLines: the same label names with values of different JSON types; as label values "200" and 200 are the same.
+var c10JSONLines = []string{
+	`{"code":200}`, `{"code":500}`, `{"code":"200"}`, `{"code":200,"ok":true}`, `{"code":200,"ok":false}`, `{"ok":true}`, `{"ok":"true"}`, `{"code":-1}`, `{"code":0}`, `{"code":""}`,
 }
 
 var c10Groupings = map[string]*refmodel.Grouping{
@@ -47,6 +55,11 @@ var c10Groupings = map[string]*refmodel.Grouping{
 	"without(c)": {Without: true, Labels: []string{"c"}},
 }
 
+var c10JSONGroupings = map[string]*refmodel.Grouping{
+	"by(code)": {Labels: []string{"code"}}, "by(code,ok)": {Labels: []string{"code", "ok"}}, "by(ok)": {Labels: []string{"ok"}},
+	"without(msg)": {Without: true, Labels: []string{"msg"}}, "without(msg,ok)": {Without: true, Labels: []string{"msg", "ok"}},
+}
+
 var c10GroupingNames = []string{"", "by(a)", "by(a,c)", "by(ab)", "without(a)", "without(c)"}
 
 func c10Build(in c10Input) ([]mockq.Rec, refmodel.Expr) {
@@ -56,6 +69,21 @@ func c10Build(in c10Input) ([]mockq.Rec, refmodel.Expr) {
 		for _, si := range in.Sets {
 			sets = append(sets, c10Sets[si])
 		}
+	}
+	for i, li := range in.JSON {
+		data = append(data, mockq.Rec{TS: (c09Base + int64(i)) * sec, Line: c10JSONLines[li]})
+	}
+	if len(in.JSON) > 0 {
+		js := []refmodel.Stage{&refmodel.JSONStage{}, &refmodel.Drop{Items: []refmodel.DKItem{{Label: "msg"}}}}
+		var e refmodel.Expr
+		switch in.Shape {
+		case "count":
+			e = &refmodel.RangeAgg{Op: "count_over_time", Stages: js, RangeNS: 10 * sec}
+		default:
+			g := c10JSONGroupings[in.Grouping]
+			e = &refmodel.VecAgg{Op: "sum", Grouping: g, X: &refmodel.RangeAgg{Op: "count_over_time", Stages: js[:1], RangeNS: 10 * sec}}
+		}
+		return data, e
 	}
 	for i, set := range sets {
 		labels := append([]mockq.KV(nil), set...)
@@ -133,7 +161,7 @@ func c10Check(r *vkit.Run, in c10Input, replay []int) {
 	if st.Capped {
 		r.Cap("map-order exploration stopped early")
 	}
-	r.State(vkit.J(in.Sets) + vkit.J(in.Explicit) + in.Shape + in.Grouping + fmt.Sprint(in.Range))
+	r.State(vkit.J(in.Sets) + vkit.J(in.Explicit) + vkit.J(in.JSON) + in.Shape + in.Grouping + fmt.Sprint(in.Range))
 	if r.WantSample() && len(in.Sets) >= 2 && in.Grouping != "" {
 		r.Sample(map[string]any{"input": in, "query": expr.Text(), "label_sets": c10Describe(in.Sets), "map_order_executions": st.Executions})
 	}
@@ -279,8 +307,38 @@ func c10Run(r *vkit.Run) {
 		}
 		r.NonTrivial()
 	}
+	// label values that are JSON numbers / booleans / strings: every tuple of 1..2 (thorough: 3) lines
+	var jt [][]int
+	var jrec func(cur []int)
+	jrec = func(cur []int) {
+		if len(cur) > 0 {
+			jt = append(jt, append([]int(nil), cur...))
+		}
+		if len(cur) == n {
+			return
+		}
+		for i := range c10JSONLines {
+			jrec(append(cur, i))
+		}
+	}
+	jrec(nil)
+	for _, tu := range jt {
+		idx++
+		if !r.Mine(idx) || r.Stop() {
+			continue
+		}
+		for _, rg := range []bool{false, true} {
+			c10Check(r, c10Input{JSON: tu, Shape: "count", Range: rg, Bound: 1}, nil)
+			for _, g := range []string{"by(code)", "by(code,ok)", "by(ok)", "without(msg)", "without(msg,ok)"} {
+				c10Check(r, c10Input{JSON: tu, Shape: "sum-count", Grouping: g, Range: rg, Bound: 1}, nil)
+			}
+		}
+		if len(tu) >= 2 {
+			r.NonTrivial()
+		}
+	}
 	r.Count("separator_collision_pairs", int64(len(coll)))
-	r.Note("bounds", fmt.Sprintf("all tuples of 1..%d label sets from a 12-set colliding alphabet x {count_over_time, sum by/without(...) of it, avg_over_time by/without(...)} x 6 groupings x {instant, 3-step range}; every map iteration inside Eval is a choice point, deviation bound %d (complete rotation set: all label maps have <= 8 entries)", n, bound))
+	r.Note("bounds", fmt.Sprintf("all tuples of 1..%d label sets from a 12-set colliding alphabet x {count_over_time, sum by/without(...) of it, avg_over_time by/without(...)} x 6 groupings x {instant, 3-step range}; all tuples of 10 JSON lines whose label values are numbers, booleans and strings (through | json) x 6 groupings; every map iteration inside Eval is a choice point, deviation bound %d (complete rotation set: all label maps have <= 8 entries)", n, bound))
 }
 
 func c10Replay(r *vkit.Run, v vkit.Violation) *vkit.Violation {
